@@ -8,8 +8,8 @@ from vlib import runner
 
 ID = "C07"
 MODULE = "PotasscoVerif.Props.C07"
-EXTRA_MODULES = ["PotasscoVerif.Lemmas.AspifLang", "PotasscoVerif.Props.C07b"]
-THEOREMS = ["PotasscoVerif.C07.C07_fields_exact", "PotasscoVerif.C07.C07_ext_gating", "PotasscoVerif.C07.C07_incremental_needs_ext",
+EXTRA_MODULES = ["PotasscoVerif.Lemmas.AspifLang", "PotasscoVerif.Props.C07b", "PotasscoVerif.Props.C05m"]
+THEOREMS = ["PotasscoVerif.C05m.C05_modes", "PotasscoVerif.C07.C07_fields_exact", "PotasscoVerif.C07.C07_ext_gating", "PotasscoVerif.C07.C07_incremental_needs_ext",
             "PotasscoVerif.C07.C07_assign_values", "PotasscoVerif.C03.C03_number_exact", "PotasscoVerif.C03.C03_reject_out_of_range",
             "PotasscoVerif.C07.C07_complete", "PotasscoVerif.C07.C07_sound", "PotasscoVerif.C07.C07_rejects", "PotasscoVerif.C07.C07_ext_rules_need_ext",
             "PotasscoVerif.C07.Spec.ruleOf", "PotasscoVerif.C07.Spec.sum", "PotasscoVerif.C07.rulesLoop_sound", "PotasscoVerif.C07.rulesLoop_complete",
@@ -175,6 +175,22 @@ def evaluate(ctx, cases):
             ii = i.rsplit(" ", 1) if " " in i else ["", i]
             if mi[0] != ii[0] or mi[1][:2] != ii[1][:2]:
                 ctx.disagree("SmodelsInput:calls+status", cc, i[-800:], m[-800:])
+
+    # the reader driven step by step (accept, parse(Incremental) while more()): model SmodelsIn.readInc (C05_modes: equal to one-go reading)
+    li = ["sri %d %s" % (c["ext"], c["text"]) for c in cases]
+    mi_ = ctx.model(li); ii_ = ctx.impl(li, 4096); one = ctx.impl(lines, 4096)
+    for c, i, m, o in zip(cases, ii_, mi_, one):
+        if runner.is_oom(i) or runner.is_oom(o): continue
+        if not isinstance(i, str):
+            ctx.fail("C07:crash", "SmodelsInput crashed / sanitizer abort (step by step)", dict(c, mode="I"), {"stderr": i[2][-1500:]}); continue
+        ctx.dist["step-by-step reads"] += 1
+        ctx.compared += 1
+        a = m.rsplit(" ", 1) if " " in m else ["", m]; b = i.rsplit(" ", 1) if " " in i else ["", i]
+        if a[0] != b[0] or a[1][:2] != b[1][:2]: ctx.disagree("SmodelsInput:step-by-step", dict(c, mode="I"), i[-800:], m[-800:])
+        if isinstance(o, str):
+            d = o.rsplit(" ", 1) if " " in o else ["", o]
+            if d[0] != b[0] or d[1][:2] != b[1][:2]:
+                ctx.fail("C07:modes-differ", "reading step by step delivers other calls / another result than reading in one go", dict(c, mode="I"), {"one-go": o[-600:], "step-by-step": i[-600:]})
 
     # the configurable atom limit (ProgramReader::setMaxVar): implementation against the reference acceptor (the Lean model has the default limit)
     sub = [c for k, c in enumerate(cases) if k % 3 == 0]
